@@ -4,8 +4,12 @@
     header layout, own varints and directory codec, upstream codec crates, the specification's
     greatest-entry lookup); it validates EVERY file the Rust writer produces in the direct oracle and is
     where "reader and writer could share a misunderstanding" is ruled out.
-    What is proved here are the facts about the written bytes that the validity conditions need (for
-    archives whose directory fits the root; premises as in C01): the 127-byte header carries magic and
+    Proved here: [C02_written_is_spec_valid] — every archive the writer returns, with or without leaf
+    directories, has a header that decodes, its root directory at offset 127 within the 16257-byte budget,
+    and a directory tree that is spec-valid in the formal sense C03 quantifies over ([SpecLookup.wf_dir]:
+    every directory decodes, entries strictly ascending with non-overlapping runs, every leaf between its
+    pointer's id and the next entry's) — so by C03 every specification-conforming lookup finds exactly the
+    written tiles.  And the individual facts the validity conditions need (premises as in C01): the 127-byte header carries magic and
     version and relative, consecutive, non-overlapping section offsets; header + root fit in 16 KiB; the
     directory is a VALID directory (strictly ascending, non-overlapping runs, lengths >= 1) that the
     specification encoder would emit byte for byte; every tile range lies inside the tile-data section
@@ -13,8 +17,30 @@
     entries and distinct contents; entries are maximal runs; tile data is in tile-id order of first
     occurrence (clustered). *)
 Require Import PM.Base PM.Varint PM.Oracles PM.Params PM.Float PM.Header PM.HeaderProofs PM.Directory PM.DirectoryProofs PM.Stream
-               PM.TileManager PM.DirWriter PM.DirReader PM.Archive PM.FinishSpec PM.FinishProofs PM.PlaceProofs PM.ReadBackProofs PM.RoundTripProofs.
+               PM.TileManager PM.DirWriter PM.DirReader PM.Archive PM.FinishSpec PM.FinishProofs PM.PlaceProofs PM.ReadBackProofs PM.RoundTripProofs PM.SpillSpec PM.SpillProofs PM.SpecLookup PM.TileManagerProofs PM.WrittenValidProofs.
+From Coq Require Import Sorting.Sorted.
 Open Scope N_scope.
+
+(** the written archive is spec-valid *)
+Theorem C02_written_is_spec_valid : forall cx, codec_inv cx -> forall asy p tiles U root0 img,
+  Inv cx (p_tm p) -> logical (p_tm p) = Ok tiles ->
+  hash_inj_on cx U -> (forall c, In c U -> nlen c < two32) ->
+  Forall (fun t => In (snd t) U /\ fst t < two63 /\ 1 <= nlen (snd t)) tiles -> nlen tiles + 1 < two32 ->
+  StronglySorted (fun a b => fst a < fst b) tiles ->
+  p_icomp p <> CUnknown -> p_minz p < 256 -> p_maxz p < 256 -> p_cz p < 256 ->
+  encode_dir cx asy (p_icomp p) (fr_dir (spec_finish tiles)) = Ok root0 ->
+  (forall k blobs ptrs, leaves_spec cx (p_icomp p) (chunks k (fr_dir (spec_finish tiles))) 0 = Ok (blobs, ptrs) ->
+                        Forall (fun b => 1 <= nlen b < two32) blobs) ->
+  (forall mb, compress cx asy (p_icomp p) (p_meta p) = Ok mb ->
+              127 + nlen root0 + nlen mb + nlen (fr_data (spec_finish tiles)) + 1 < two64) ->
+  to_bytes cx asy p = Ok img ->
+  exists h rest, decode_header img = Ok (h, rest) /\ h_icomp h = p_icomp p /\ h_root_off h = 127 /\
+    h_root_len h <= max_root_dir_length /\
+    wf_dir cx (p_icomp p) img (h_leaf_off h) 4 (h_root_off h) (h_root_len h) 0 two64.
+Proof.
+  intros cx Hinv asy p tiles U root0 img HI Hlog Hinj Hsm Ht Hc Hs Hcomp Z1 Z2 Z3 Hr Hb Hsz Hto.
+  exact (written_is_valid cx Hinv asy p tiles U root0 img HI Hlog Hinj Hsm Ht Hc Hs Hcomp Z1 Z2 Z3 eq_refl Hr Hb Hsz Hto).
+Qed.
 
 (** layout: header, then root directory at 127, metadata, (empty) leaf section, tile data — consecutive *)
 Theorem C02_layout : forall cx asy p res root mb,
